@@ -1,0 +1,88 @@
+//go:build verif
+
+package environment
+
+// Exported shims for the runtime verification harness (build tag `verif`).
+// Add-only: nothing here is compiled into normal builds. They give access to
+// what is otherwise unexported: newEnvironment, Environment.workflow, the
+// Transition interface (unexported methods) and the Manager's registry.
+
+import (
+	"github.com/AliceO2Group/Control/common/utils/uid"
+	"github.com/AliceO2Group/Control/core/task"
+	"github.com/AliceO2Group/Control/core/workflow"
+)
+
+// VerifNewEnvironment is newEnvironment.
+func VerifNewEnvironment(userVars map[string]string, id uid.ID) (*Environment, error) {
+	env, err := newEnvironment(userVars, id)
+	if err == nil && env != nil {
+		env.UserVars.Set("environment_id", env.id.String())
+	}
+	return env, err
+}
+
+// VerifParent returns the ParentAdapter to be used as parent of the root role
+// (as CreateEnvironment passes to loadWorkflow).
+func VerifParent(env *Environment) *workflow.ParentAdapter { return env.wfAdapter }
+
+// VerifSetWorkflow installs a loaded workflow.
+func VerifSetWorkflow(env *Environment, root workflow.Role) {
+	env.Mu.Lock()
+	env.workflow = root
+	env.Mu.Unlock()
+}
+
+// VerifSetHookHandler installs the function that triggers hook tasks (in the
+// core: taskman.TriggerHooks).
+func VerifSetHookHandler(env *Environment, f func(hooks task.Tasks) error) { env.hookHandlerF = f }
+
+type verifTransition struct {
+	name string
+	body func(env *Environment) error
+}
+
+func (t verifTransition) eventName() string { return t.name }
+func (t verifTransition) check() error      { return nil }
+func (t verifTransition) do(env *Environment) error {
+	if t.body == nil {
+		return nil
+	}
+	return t.body(env)
+}
+
+// VerifNewTransition builds a Transition for FSM event `name` whose task work is
+// `body` (the Transition interface has unexported methods).
+func VerifNewTransition(name string, body func(env *Environment) error) Transition {
+	return verifTransition{name: name, body: body}
+}
+
+// VerifAdopt registers env in the manager the way CreateEnvironment does.
+func VerifAdopt(envs *Manager, env *Environment) {
+	envs.mu.Lock()
+	envs.m[env.id] = env
+	envs.pendingStateChangeCh[env.id] = env.stateChangedCh
+	envs.mu.Unlock()
+}
+
+// VerifPendingAwait returns, per await expression, how many started calls are
+// still waiting to be collected.
+func VerifPendingAwait(env *Environment) map[string]int {
+	env.Mu.RLock()
+	defer env.Mu.RUnlock()
+	out := make(map[string]int)
+	for k, cm := range env.callsPendingAwait {
+		n := 0
+		for _, calls := range cm {
+			n += len(calls)
+		}
+		out[k] = n
+	}
+	return out
+}
+
+// VerifSubscribeToWfState starts the workflow-state watcher as CreateEnvironment
+// does after a successful CONFIGURE.
+func VerifSubscribeToWfState(env *Environment, taskman *task.Manager) {
+	env.subscribeToWfState(taskman)
+}
